@@ -453,7 +453,21 @@ impl Circuit {
     }
 
     pub fn reset<C>(&mut self, config: &CircuitBreakerConfig<C>) {
-        self.transition_to(CircuitState::Closed, config);
+        if self.state == CircuitState::Closed {
+            // Already closed: no transition to emit, but the window must still be emptied
+            self.clear_window();
+        } else {
+            self.transition_to(CircuitState::Closed, config);
+        }
+    }
+
+    fn clear_window(&mut self) {
+        self.success_count = 0;
+        self.failure_count = 0;
+        self.total_count = 0;
+        self.slow_call_count = 0;
+        self.count_window.clear();
+        self.call_records.clear();
     }
 
     fn transition_to<C>(&mut self, state: CircuitState, config: &CircuitBreakerConfig<C>) {
